@@ -49,6 +49,8 @@ MAY_DELETE = ['BLPOP', 'BRPOP', 'BRPOPLPUSH', 'BZPOPMAX', 'BZPOPMIN', 'DEL', 'EV
               'ZREMRANGEBYLEX', 'ZREMRANGEBYRANK', 'ZREMRANGEBYSCORE', 'ZUNIONSTORE']
 BLOCKING_TRANSLATION = {'BLPOP': 'LPOP', 'BRPOP': 'RPOP', 'BRPOPLPUSH': 'RPOPLPUSH', 'BZPOPMIN': 'ZPOPMIN', 'BZPOPMAX': 'ZPOPMAX'}
 KNOWN_ID = 'unclassified-store-commands-resurrect-deleted-key'
+ENSURE_ROUNDS = 3
+CLIENT_CMDS = ('GET', 'SET', 'DEL', 'APPEND', 'EVAL', 'EXISTS', 'MGET', 'MSET')
 
 
 # ---------------------------------------------------------------- finite obligation
@@ -122,6 +124,28 @@ class Store:
         def chk(cond, what):
             if not cond and len(self.bad) < 5:
                 self.bad.append({'seq': e['seq'], 'what': what, 'cmd': [c.decode('latin1') for c in cmd][:4], 'reply': rep})
+        if name == b'EVAL':
+            verb, inline, keys, argv = parse_script(cmd)
+            for k in keys:
+                pre.setdefault(k, self.d.get(k))
+            if verb == b'DELALL':
+                n = 0
+                for k in keys:
+                    if k in self.d:
+                        n += 1; del self.d[k]
+                chk(rep == 'I ' + hx(str(n).encode()), 'EVAL DELALL reply')
+            elif verb == b'GETALL':
+                exp = 'A %d' % len(keys) + ''.join(' BN' if pre[k] is None else ' B ' + hx(pre[k]) for k in keys)
+                chk(rep == exp, 'EVAL GETALL reply')
+            elif verb == b'SETALL':
+                v = argv[0] if argv else inline
+                for k in keys:
+                    self.d[k] = v
+            return name, cmd, pre
+        if name == b'EXISTS' and len(cmd) > 2:
+            for k in cmd[1:]:
+                pre[k] = self.d.get(k)
+            return name, cmd, pre
         if name in (b'GET', b'SET', b'APPEND', b'EXISTS', b'PTTL', b'DUMP', b'RESTORE'):
             k = cmd[1]
             old = self.d.get(k)
@@ -156,13 +180,77 @@ class Store:
         return name, cmd, pre
 
 
-def op_kind(cmd):
+def parse_script(cmd):
+    """EVAL <text> <n> keys.. argv..  with text = VERB[=value][:unique]  (the stand-in's fake script vocabulary)"""
+    text = cmd[1]
+    n = int(cmd[2])
+    keys, argv = cmd[3:3 + n], cmd[3 + n:]
+    head = text.split(b':')[0]
+    verb, _, inline = head.partition(b'=')
+    return verb.upper(), inline, keys, argv
+
+
+def split_cmd(cmd):
+    """per-key view of a client command: list of sub-operations
+    {key, kind r|w|d|a|e, wval, push: None (by command name) | 2 (non-first key of a multi-key script), internal, pos}
+    a multi-key command is ONE operation on each of its keys; MGET / MSET / multi-key DEL / EXISTS are split by the proxy into
+    single-key commands; a multi-key EVAL first runs `EXISTS key` for every key (ensure_keys_imported: internal reads) and is then
+    routed by its first key only"""
     name = cmd[0].upper()
-    if name == b'GET': return 'r'
-    if name == b'SET': return 'w'
-    if name == b'DEL': return 'd'
-    if name == b'APPEND': return 'a'
-    return '?'
+    subs = []
+    def sub(key, kind, wval=None, push=None, internal=False, pos=0, cname=None):
+        subs.append({'key': key, 'kind': kind, 'wval': wval, 'push': push, 'internal': internal, 'pos': pos, 'cname': (cname or name).decode()})
+    if name == b'GET' and len(cmd) == 2: sub(cmd[1], 'r')
+    elif name == b'SET' and len(cmd) >= 3: sub(cmd[1], 'w', cmd[2])
+    elif name == b'APPEND' and len(cmd) == 3: sub(cmd[1], 'a', cmd[2])
+    elif name == b'DEL':
+        for i, k in enumerate(cmd[1:]): sub(k, 'd', pos=i)
+    elif name == b'EXISTS':
+        for i, k in enumerate(cmd[1:]): sub(k, 'e', pos=i)
+    elif name == b'MGET':
+        for i, k in enumerate(cmd[1:]): sub(k, 'r', pos=i, cname=b'GET')
+    elif name == b'MSET':
+        for i in range(1, len(cmd) - 1, 2): sub(cmd[i], 'w', cmd[i + 1], pos=(i - 1) // 2, cname=b'SET')
+    elif name == b'EVAL' and len(cmd) >= 4:
+        verb, inline, keys, argv = parse_script(cmd)
+        kind = {b'DELALL': 'd', b'GETALL': 'r', b'SETALL': 'w'}.get(verb, '?')
+        wval = (argv[0] if argv else inline) if kind == 'w' else None
+        for i, k in enumerate(keys):
+            if len(keys) >= 2:
+                for _ in range(ENSURE_ROUNDS):     # a redirected multi-key command runs ensure_keys_imported again on the next proxy
+                    sub(k, 'e', internal=True, pos=i, cname=b'EXISTS')
+            sub(k, kind, wval, push=(2 if i > 0 else None), pos=i)
+    elif len(cmd) > 1:
+        sub(cmd[1], '?')
+    return subs
+
+
+def sub_reply(o, sb):
+    """(acceptor constraint, per-key reply in single-key notation or None = unconstrained) of sub-operation sb of client operation o"""
+    r = o['reply']
+    if r is None: return 'any', None
+    if r.startswith('E '): return 'err', r
+    name = o['cmd'][0].upper()
+    n = len([x for x in o['subs'] if not x['internal']])
+    toks = r.split()
+    def elem(i):
+        # i-th element of an array reply of bulk strings in token notation
+        j, out = 2, []
+        while j < len(toks):
+            if toks[j] == 'BN': out.append('BN'); j += 1
+            else: out.append('B ' + toks[j + 1]); j += 2
+        return out[i] if i < len(out) else None
+    if sb['kind'] == 'r':
+        pr = r if name == b'GET' else elem(sb['pos'])
+        if pr is None: return 'any', None
+        return ('nil' if pr == 'BN' else 'val:' + (pr.split()[1] if len(pr.split()) > 1 else '-')), pr
+    if sb['kind'] in ('d', 'e'):
+        if name in (b'DEL', b'EXISTS') and n == 1:
+            return ('nil' if r == 'I ' + hx(b'0') else 'some'), r
+        return 'any', None
+    if sb['kind'] == 'w': return 'any', 'S 4f4b'
+    if sb['kind'] == 'a': return 'any', r
+    return 'any', None
 
 
 def analyse(meta, evs, pushes):
@@ -179,27 +267,47 @@ def analyse(meta, evs, pushes):
             dest[unhex(hk)] = ('P2', 'R2')
     stores = {'R1': Store(), 'R2': Store(), 'R3': Store()}
     ops = {}            # opid -> dict
-    keyev = {}          # key -> list of (seq, tokens)
-    writers = {}        # (key, value or suffix) -> opid
+    keyev = {}          # key -> list of (seq, kind, payload)
+    writers = {}        # (key, value or suffix) -> sub-operation
+    scripts = {}        # script text -> client operation
+    has_exists = set()  # keys on which an EXISTS command (client or ensure_keys_imported) may execute
+    pending_ident = []  # single-key GET / DEL executions whose client operation is found afterwards (interval + reply)
     init = {}
     finals = {}
     phases = []
     unexpected = []
+    # ensure_keys_imported only acts while an importing task exists: from the first delivery of the migration metadata to the last commit
+    w0 = min([e['seq'] for e in evs if e['t'] == 'epoch' and e.get('epoch') == 2] or [0])
+    w1 = max([e['seq'] for e in evs if e['t'] == 'commit'] or [float('inf')])
     for e in evs:
         t = e['t']
         if t == 'inv':
             cmd = [unhex(x) for x in e['cmd']]
-            k = cmd[1] if len(cmd) > 1 else b''
-            o = {'op': e['op'], 'cmd': cmd, 'key': k, 'kind': op_kind(cmd), 'inv': e['seq'], 'rep': None, 'reply': None, 'proxy': e['proxy'], 'wval': None}
+            subs = split_cmd(cmd)
+            if e['seq'] > w1:
+                subs = [sb for sb in subs if not sb['internal']]
+            o = {'op': e['op'], 'cmd': cmd, 'key': subs[0]['key'] if subs else b'', 'kind': subs[0]['kind'] if len(subs) == 1 else 'm',
+                 'inv': e['seq'], 'rep': None, 'reply': None, 'proxy': e['proxy'], 'subs': subs}
             ops[e['op']] = o
-            if o['kind'] in ('w', 'a'):
-                writers[(k, cmd[2])] = e['op']
-            keyev.setdefault(k, []).append((e['seq'], 'inv', o))
+            if cmd[0].upper() == b'EVAL' and len(cmd) > 1:
+                scripts[cmd[1]] = o
+            for j, sb in enumerate(subs):
+                sb['op'] = o; sb['id'] = (e['op'], j)
+                if sb['kind'] in ('w', 'a') and sb['wval'] is not None:
+                    writers[(sb['key'], sb['wval'])] = sb
+                if sb['kind'] == 'e':
+                    has_exists.add(sb['key'])
+                keyev.setdefault(sb['key'], []).append((e['seq'], 'inv', sb))
         elif t == 'rep':
             o = ops.get(e['op'])
             if o is not None:
                 o['rep'] = e['seq']; o['reply'] = e['reply']
-                keyev.setdefault(o['key'], []).append((e['seq'], 'rep', o))
+                if e['seq'] < w0:
+                    o['subs'] = [sb for sb in o['subs'] if not sb['internal']]
+                    for k2 in set(sb['key'] for sb in o['subs']):
+                        keyev[k2] = [x for x in keyev.get(k2, []) if not (x[1] == 'inv' and x[2]['internal'] and x[2]['op'] is o)]
+                for sb in o['subs']:
+                    keyev.setdefault(sb['key'], []).append((e['seq'], 'kill' if sb['internal'] else 'rep', sb))
         elif t == 'redis':
             st = stores[e['node']]
             name, cmd, pre = st.apply(e)
@@ -209,6 +317,7 @@ def analyse(meta, evs, pushes):
                 continue
             if name == b'SCAN':
                 continue
+            lname = name.decode().lower()
             for k, old in pre.items():
                 dp, dn = dest.get(k, ('P2', 'R2'))
                 who = {('R1', 'P1', 'conn'): 'c', ('R1', dp, 'conn'): 'p', ('R1', 'P1', 'client'): 'x',
@@ -220,17 +329,35 @@ def analyse(meta, evs, pushes):
                     unexpected.append({'seq': e['seq'], 'node': e['node'], 'owner': e['owner'], 'via': e['via'], 'cmd': name.decode()})
                     continue
                 pv = 'nil' if old is None else 'val:' + hx(old)
-                lname = name.decode().lower()
-                if (side, who) in (('s', 'c'), ('d', 'p')) and lname in ('get', 'set', 'del', 'append'):
-                    kd = op_kind(cmd)
-                    opid, val = -1, '-'
+                client_side = (side, who) in (('s', 'c'), ('d', 'p'))
+                if client_side and lname in ('get', 'set', 'del', 'append'):
+                    kd = {'get': 'r', 'set': 'w', 'del': 'd', 'append': 'a'}[lname]
+                    sbid, val = None, '-'
                     if kd in ('w', 'a'):
-                        opid = writers.get((k, cmd[2]), -1)
+                        sb = writers.get((k, cmd[2]))
                         newv = cmd[2] if kd == 'w' else (old or b'') + cmd[2]
                         val = hx(newv)
-                        if opid in ops: ops[opid]['wval'] = newv
+                        if sb is not None:
+                            sb['xval'] = newv; sbid = sb['id']
                         kd = 'w'
-                    keyev.setdefault(k, []).append((e['seq'], 'redis', (side, who, 'cmd', pv, opid, kd, val)))
+                    entry = [e['seq'], 'redis', (side, who, 'cmd', pv, sbid, kd, val)]
+                    if sbid is None:
+                        pending_ident.append((e['seq'], k, kd, e['reply'], entry))
+                    keyev.setdefault(k, []).append(entry)
+                elif client_side and lname == 'eval':
+                    verb, inline, keys, argv = parse_script(cmd)
+                    kd = {b'DELALL': 'd', b'GETALL': 'r', b'SETALL': 'w'}.get(verb, 'r')
+                    val = hx(argv[0] if argv else inline) if kd == 'w' else '-'
+                    o = scripts.get(cmd[1])
+                    sbid = None
+                    if o is not None:
+                        for sb in o['subs']:
+                            if sb['key'] == k and not sb['internal']:
+                                sbid = sb['id']
+                                if kd == 'w': sb['xval'] = argv[0] if argv else inline
+                    keyev.setdefault(k, []).append((e['seq'], 'redis', (side, who, 'cmd', pv, sbid, kd, val)))
+                elif client_side and lname == 'exists' and k in has_exists:
+                    keyev.setdefault(k, []).append((e['seq'], 'redis', (side, who, 'existsq', pv)))
                 elif lname in ('pttl', 'dump', 'del', 'exists', 'restore'):
                     keyev.setdefault(k, []).append((e['seq'], 'redis', (side, who, lname, pv)))
                 else:
@@ -239,6 +366,18 @@ def analyse(meta, evs, pushes):
             phases.append((e['seq'], e['src'], e['dst']))
         elif t == 'final':
             finals[e['node']] = {unhex(k): unhex(v)[1:] for k, v in e['keys'].items()}
+    # a GET / DEL execution belongs to the only client operation on that key of that kind whose interval contains it and whose reply is the stand-in's
+    for seq, k, kd, reply, entry in pending_ident:
+        cands = []
+        for x in keyev.get(k, []):
+            if x[1] != 'inv': continue
+            sb = x[2]; o = sb['op']
+            if sb['internal'] or sb['kind'] != kd or sb['cname'] not in ('GET', 'DEL'): continue
+            _, pr = sub_reply(o, sb)
+            if o['inv'] < seq and (o['rep'] is None or o['rep'] > seq) and (pr is None or pr == reply or pr.startswith('E ')):
+                cands.append(sb)
+        if len(cands) == 1:
+            entry[2] = entry[2][:4] + (cands[0]['id'],) + entry[2][5:]
     # acceptor lines for the in-range keys
     lines = {}
     for k in sorted(inkeys):
@@ -247,25 +386,25 @@ def analyse(meta, evs, pushes):
         toks = []
         for _, kind, x in seqd:
             if kind == 'inv':
-                idx[x['op']] = len(idx)
-                kd = 'w' if x['kind'] in ('w', 'a') else x['kind']
-                if kd == '?': kd = 'r'
-                v = hx(x['wval']) if x['wval'] is not None else ('-' if kd != 'w' else hx(b'?unexecuted'))
-                push = '1' if pushes.get(x['cmd'][0].upper().decode(), False) else '0'
-                toks.append('inv %d %s %s %s %s' % (idx[x['op']], kd, v, push, '1' if x['proxy'] == 'P1' else '0'))
+                idx[x['id']] = len(idx)
+                kd = {'w': 'w', 'a': 'w', 'd': 'd', 'e': 'e'}.get(x['kind'], 'r')
+                wv = x.get('xval', x['wval'] if x['kind'] == 'w' else None)
+                v = hx(wv) if wv is not None else ('-' if kd != 'w' else hx(b'?unexecuted'))
+                push = '3' if x['internal'] else '2' if x['push'] == 2 else ('1' if pushes.get(x['op']['cmd'][0].upper().decode() if not x['internal'] else 'EXISTS', False) else '0')
+                if x['cname'] in ('GET', 'SET', 'EXISTS') and x['push'] != 2 and x['op']['cmd'][0].upper() in (b'MGET', b'MSET'):
+                    push = '1' if pushes.get(x['cname'], False) else '0'
+                toks.append('inv %d %s %s %s %s' % (idx[x['id']], kd, v, push, '1' if x['op']['proxy'] == 'P1' else '0'))
+            elif kind == 'kill':
+                toks.append('kill %d' % idx[x['id']])
             elif kind == 'rep':
-                r = x['reply']
-                if r.startswith('E '): c = 'err'
-                elif x['kind'] == 'r': c = 'nil' if r == 'BN' else 'val:' + (r.split()[1] if len(r.split()) > 1 else '-')
-                elif x['kind'] == 'd': c = 'nil' if r == 'I ' + hx(b'0') else 'some'
-                else: c = 'any'
-                toks.append('rep %d %s' % (idx[x['op']], c))
+                c, _ = sub_reply(x['op'], x)
+                toks.append('rep %d %s' % (idx[x['id']], c))
             else:
                 if len(x) == 4:
                     toks.append('%s %s %s %s' % x)
                 else:
-                    side, who, nm, pv, opid, kd, val = x
-                    toks.append('%s %s %s %s %d %s %s' % (side, who, nm, pv, idx.get(opid, -1), kd, val))
+                    side, who, nm, pv, sbid, kd, val = x
+                    toks.append('%s %s %s %s %d %s %s' % (side, who, nm, pv, idx.get(sbid, -1), kd, val))
         dn = dest[k][1]
         if 'R1' in finals:
             v = finals['R1'].get(k); toks.append('fin s ' + ('nil' if v is None else 'val:' + hx(v)))
@@ -288,7 +427,7 @@ def analyse(meta, evs, pushes):
         for s in seen:
             overlap[s] = overlap.get(s, 0) + 1
     return {'lines': lines, 'ops': ops, 'finals': finals, 'init': init, 'overlap': overlap, 'inkeys': inkeys, 'dest': dest,
-            'standin_problems': stores['R1'].bad + stores['R2'].bad, 'unexpected': unexpected}
+            'standin_problems': stores['R1'].bad + stores['R2'].bad + stores['R3'].bad, 'unexpected': unexpected}
 
 
 # ---------------------------------------------------------------- monitors on the implementation
@@ -306,7 +445,7 @@ def linearizable(ops, init, final):
         todo.append({'kind': 'f', 'inv': float('inf'), 'rep': float('inf'), 'reply': final, 'cmd': None, 'op': -1})
     todo.sort(key=lambda o: o['inv'])
     n = len(todo)
-    if n > 60:
+    if n > 400:
         return None
     sys.setrecursionlimit(10000)
     seen = set()
@@ -323,6 +462,10 @@ def linearizable(ops, init, final):
             return o['reply'] == 'I ' + hx(str(len(nv)).encode()), nv
         if k == 'd':
             return o['reply'] == 'I ' + hx(b'1' if v is not None else b'0'), None
+        if k == 'D':
+            return True, None             # a delete whose per-key result is not visible in the reply (multi-key DEL / DELALL)
+        if k == 'e':
+            return o['reply'] == 'I ' + hx(b'1' if v is not None else b'0'), v
         if k == 'f':
             return o['reply'] == v, v
         return True, v
@@ -355,7 +498,18 @@ def monitors(an):
     bad = []
     byk = {}
     for o in an['ops'].values():
-        byk.setdefault(o['key'], []).append(o)
+        for sb in o['subs']:
+            if sb['internal'] or sb['kind'] == '?':
+                continue
+            _, pr = sub_reply(o, sb)
+            kind = sb['kind']
+            if o['reply'] is not None and o['reply'].startswith('E '):
+                pr = o['reply']
+            elif pr is None:
+                if kind in ('d',): kind = 'D'
+                elif kind in ('e', 'r'): continue      # a read whose per-key result is not visible: no constraint
+            byk.setdefault(sb['key'], []).append({'op': o['op'], 'kind': kind, 'cmd': [sb['cname'].encode(), sb['key'], sb['wval']],
+                                                  'inv': o['inv'], 'rep': o['rep'], 'reply': (pr if pr is not None else 'any')})
     finals = an['finals']
     nerr = sum(1 for o in an['ops'].values() if o['reply'] and o['reply'].startswith('E '))
     for k, os_ in byk.items():
@@ -370,7 +524,7 @@ def monitors(an):
         r = linearizable(os_, an['init'].get(k), fin) if home in finals else linearizable(os_, an['init'].get(k), None)
         if r:
             bad.append({'key': k.decode('latin1'), 'what': r,
-                        'ops': [{'op': o['op'], 'cmd': [c.decode('latin1') for c in o['cmd']], 'inv': o['inv'], 'rep': o['rep'], 'reply': o['reply']}
+                        'ops': [{'op': o['op'], 'cmd': [(c or b'').decode('latin1') for c in o['cmd']], 'inv': o['inv'], 'rep': o['rep'], 'reply': o['reply']}
                                 for o in sorted(os_, key=lambda o: o['inv'])][:40],
                         'final_on_' + home: None if fin is None else fin.decode('latin1')})
     return bad, nerr
@@ -383,17 +537,17 @@ def mig_cases(chk):
     if chk.tier == 'quick':
         cfgs = [(1, 0), (2, 0), (2, 1), (3, 0), (3, 1)]
         for i, (conns, active) in enumerate(cfgs):
-            cases.append(dict(seed=r.randrange(1, 10**6), conns=conns, active=active, nkeys=70, nout=20, clients=6, ops=330, lat=2000))
+            cases.append(dict(seed=r.randrange(1, 10**6), conns=conns, active=active, nkeys=70, nout=20, clients=6, ops=330, lat=2000, mk=1 if i in (1, 4) else 0))
     else:
         for i in range(96):
             cases.append(dict(seed=r.randrange(1, 10**6), conns=1 + i % 3, active=(i // 3) % 2, nkeys=r.choice([40, 70, 120]), nout=20,
                               clients=r.choice([4, 6, 8]), ops=r.choice([300, 400]), lat=r.choice([1000, 2000, 3000]),
-                              scan_count=r.choice([2, 10, 50])))
+                              scan_count=r.choice([2, 10, 50]), mk=1 if i % 3 == 2 else 0))
     return cases
 
 
 def case_line(c, path):
-    extra = ''.join(' %s=%s' % (k, c[k]) for k in ('scan_count',) if k in c)
+    extra = ''.join(' %s=%s' % (k, c[k]) for k in ('scan_count', 'mk') if k in c)
     return 'mig seed=%d conns=%d active=%d nkeys=%d nout=%d clients=%d ops=%d lat=%d sets=0 out=%s timeout_ms=90000%s' % (
         c['seed'], c['conns'], c['active'], c['nkeys'], c['nout'], c['clients'], c['ops'], c['lat'], path, extra)
 
@@ -586,6 +740,32 @@ def multi_check(chk, pushes, stats):
     return out
 
 
+def mkey_check(chk, pushes, stats):
+    """directed: MULTI-KEY commands through the importing proxy while the scanner is held (every key still on the source): EVAL with 1, 2, 3
+    keys with and without trailing ARGV (deleting / reading / writing script), multi-key DEL, EXISTS, MGET, MSET; every key is read back
+    right after the command, after the scan and after the commit.  Per key a multi-key command is one operation (Model/Migrate.v EvEnsured
+    for the keys a multi-key script is not routed by); acceptor + linearizability + final placement on every trace"""
+    out = []
+    cfgs = [(1, 0, 0), (2, 0, 1), (3, 1, 0)] if chk.tier == 'quick' else [(c, a, b) for c in (1, 2, 3) for a in (0, 1) for b in (0, 1)]
+    for i, (conns, active, absent) in enumerate(cfgs):
+        path = '%s/c03_mkey_%s_%d.jsonl' % (vlib.WORK, chk.tier, i)
+        line = 'mkey conns=%d active=%d absent=%d out=%s' % (conns, active, absent, path)
+        if os.path.exists(path): os.remove(path)
+        rc, res = chk.run_impl('migrate', [line], timeout=150)
+        r = res[0] if res else '<no output>'
+        chk.count(line, True)
+        stats['mkey'].append(r[:300])
+        m = dict(t.split('=', 1) for t in r.split() if '=' in t)
+        if not r.startswith('mkey ok') or m.get('gate') != '1':
+            out.append({'kind': 'correspondence', 'case': line, 'impl': r[:400], 'what': 'directed multi-key scenario did not complete / scanner gate not reached', 'no_input': True})
+        elif m.get('bad_reads') != '0':
+            out.append({'kind': 'monitor', 'case': line, 'impl': r[:600], 'trace': path,
+                        'what': '%s key(s) deleted by an acknowledged multi-key command were readable right afterwards' % m.get('bad_reads')})
+        if os.path.exists(path):
+            out += run_one_trace(chk, line, path, pushes, stats)
+    return out
+
+
 def run(chk):
     ok = vlib.standard_proof_phase(chk, TRUSTED, 'migrate')
     chk.cov['rule'] = ('cases = (i) every command name of docs/command_table.json through the real requires_blocking_migration (exhaustive), '
@@ -595,7 +775,8 @@ def run(chk):
                        '(2 or 3 range keys with the same migration lock slot in one scan batch while the UMSYNC of one of them - first / later in the batch, DEL or SDIFFSTORE - '
                        'holds the slot lock: held SCAN, held UMSYNC PTTL, held scanner RESTORE), each DEL run also through acceptor + monitors, (v) runs in which the source proxy has 2 or 3 migrating '
                        'tasks at once towards one or two destination proxies (P2, P3): directed (scanners held, a deleting command for a key of every task through its importing proxy, read back) '
-                       'and random traffic on every range through every proxy, all through acceptor + monitors. evaluations = acceptor cases + classify cases + witness cases; '
+                       'and random traffic on every range through every proxy, all through acceptor + monitors, (vi) multi-key commands through the importing proxy: directed (scanner held; EVAL with 1-3 keys '
+                       'with/without ARGV deleting / reading / writing, multi-key DEL / EXISTS / MGET / MSET, keys read back before / after the scan / after the commit) and mixed into the random traffic (mk=1). evaluations = acceptor cases + classify cases + witness cases; '
                        'non-trivial = distinct per-key trace with more than 3 Redis-level events on the key (it was pulled, pushed or scanned while clients used it)')
     if not ok:
         return
@@ -607,13 +788,14 @@ def run(chk):
         chk.violation({'kind': 'monitor', 'known_id': KNOWN_ID, 'case': 'classify ' + ' '.join(uncls),
                        'what': 'supported commands that may delete their key are not in requires_blocking_migration: %s (premise classified_ok of C03_linearizable fails; '
                                'model witness C03_unclassified_delete_refuted; replay: witness kind=sdiffstore conns=2 active=0 hold_ms=300 out=/tmp/w.jsonl)' % ', '.join(uncls)})
-    _, cls = chk.run_impl('migrate', ['classify ' + n for n in ('GET', 'SET', 'DEL', 'APPEND')])
+    _, cls = chk.run_impl('migrate', ['classify ' + n for n in CLIENT_CMDS])
     pushes = {o.split()[1]: o.split()[2] == '1' for o in cls if o.startswith('classify')}
     stats = {'client_ops': 0, 'error_replies': 0, 'overlap': {}, 'keys': 0, 'key_events': 0, 'accepted': 0, 'hidden_steps': 0, 'budget': 0,
-             'outside_premise': [], 'witness': [], 'runs': [], 'timeouts': 0, 'collide': [], 'multi': []}
+             'outside_premise': [], 'witness': [], 'runs': [], 'timeouts': 0, 'collide': [], 'multi': [], 'mkey': []}
     viol = witness_check(chk, stats)
     viol += collide_check(chk, pushes, stats)
     viol += multi_check(chk, pushes, stats)
+    viol += mkey_check(chk, pushes, stats)
     for i, c in enumerate(mig_cases(chk)):
         path = '%s/c03_%s_%d.jsonl' % (vlib.WORK, chk.tier, i)
         line = case_line(c, path)
@@ -633,7 +815,7 @@ def run(chk):
             client_ops_on_range_keys_overlapping_source_phase=stats['overlap'], keys=stats['keys'], observed_events_on_keys=stats['key_events'],
             accepted=stats['accepted'], hidden_model_steps=stats['hidden_steps'], acceptor_budget_exceeded=stats['budget'],
             accepted_only_outside_premise=stats['outside_premise'][:10], witness=stats['witness'], run_summaries=stats['runs'][:12],
-            collide=stats['collide'][:20], collide_schedule_reached=stats.get('collide_schedule_reached'), multi_task_runs=stats['multi'][:24])
+            collide=stats['collide'][:20], collide_schedule_reached=stats.get('collide_schedule_reached'), multi_task_runs=stats['multi'][:24], multi_key_runs=stats['mkey'][:12])
     for v in viol:
         ni = v.pop('no_input', False)
         chk.violation(v, no_input=ni)
@@ -657,26 +839,29 @@ def replay(data):
         badr = ('dst_has_key=1' in r) or ('final_read=A 0' not in r and 'final_read=BN' not in r)
         print('model: C03_unclassified_delete_refuted predicts resurrection iff the command is not classified deleting')
         return 1 if badr else 0
-    if c.startswith('collide') or c.startswith('multi'):
+    if c.startswith('collide') or c.startswith('multi') or c.startswith('mkey'):
         _, impl = chk.run_impl('migrate', [c], timeout=300)
-        print('case :', c); print('impl :', impl)
+        print('case :', c); print('impl :', [x[:400] for x in impl])
         r = impl[0] if impl else ''
-        bad = collide_monitor(r) if c.startswith('collide') else multi_monitor(r)
+        if c.startswith('mkey'):
+            bad = None if (r.startswith('mkey ok') and ' bad_reads=0 ' in r) else 'read-backs contradict an acknowledged multi-key delete, or the run did not complete'
+        else:
+            bad = collide_monitor(r) if c.startswith('collide') else multi_monitor(r)
         print('monitor:', bad)
         v = []
         path = re.search(r'out=(\S+)', c).group(1)
-        if ('kind=del' in c or 'mode=traffic' in c) and os.path.exists(path):
-            _, cls = chk.run_impl('migrate', ['classify ' + n for n in ('GET', 'SET', 'DEL', 'APPEND')])
+        if ('kind=del' in c or 'mode=traffic' in c or c.startswith('mkey')) and os.path.exists(path):
+            _, cls = chk.run_impl('migrate', ['classify ' + n for n in CLIENT_CMDS])
             pushes = {o.split()[1]: o.split()[2] == '1' for o in cls if o.startswith('classify')}
             stats = {'client_ops': 0, 'error_replies': 0, 'overlap': {}, 'keys': 0, 'key_events': 0, 'accepted': 0, 'hidden_steps': 0, 'budget': 0,
-                     'outside_premise': [], 'witness': [], 'runs': [], 'timeouts': 0, 'collide': [], 'multi': []}
+                     'outside_premise': [], 'witness': [], 'runs': [], 'timeouts': 0, 'collide': [], 'multi': [], 'mkey': []}
             v = run_one_trace(chk, c, path, pushes, stats)
             print('keys=%d accepted=%d' % (stats['keys'], stats['accepted']))
             for x in v[:4]:
                 print(json.dumps(x)[:1200])
         return 1 if (bad or v) else 0
     if c.startswith('mig'):
-        _, cls = chk.run_impl('migrate', ['classify ' + n for n in ('GET', 'SET', 'DEL', 'APPEND')])
+        _, cls = chk.run_impl('migrate', ['classify ' + n for n in CLIENT_CMDS])
         pushes = {o.split()[1]: o.split()[2] == '1' for o in cls if o.startswith('classify')}
         path = data.get('trace') or re.search(r'out=(\S+)', c).group(1)
         rerun = not os.path.exists(path) or '--rerun' in sys.argv
